@@ -382,7 +382,9 @@ def judge_steps(rep, stats, case, f, isteps, msteps, crash):
             wide = [len(p["bones"]) for p in cur["parts"] if len(p["bones"]) > 256]
             fact = {"op": op[0], "ver": f["ver"], "crash": False, "impl_agrees_with_model": mism is None,
                     "partition_over_256_bones": bool(wide), "only_slot_errors": all("slot" in e_ for e_ in errs),
-                    "only_unassigned_as_zero": all("instead of -1" in e_ for e_ in errs)}
+                    "only_unassigned_as_zero": all("instead of -1" in e_ for e_ in errs),
+                    "duplicate_triangles": len({ss.rot(t) for t in f["tris"]}) < len(f["tris"]),
+                    "pre_triparts_current": len(prev["tp"]) == len(f["tris"])}
             hits = known_match(known, fact)
             if hits:
                 for h in hits:
@@ -578,7 +580,6 @@ def run(tier, seed, replay=None):
 
 
 UNPROVED = [
-    "regenerated triParts (GenerateTriPartsFromTrueTriangles): proved are totality, range [-1, partitions) and -1 for every triangle no partition holds (C10_prepare_triparts_regenerated); that a HELD triangle gets the index of a partition holding it (false for duplicate shape triangles: only the last duplicate is found) is correspondence + spec search only",
     "DeletePartitions with an index list that is not strictly ascending (outside the documented precondition): correspondence only",
     "PrepareTrueTriangles for partitions that still carry strips (NifFile::Load of OB files): totality is proved for strip-free partitions only; strips are covered by the raw correspondence cases and C18_strips_correct",
     "save + reload (NiSkinPartition::Sync, PrepareData, RemoveInvalidTris) is not modelled in Coq: the property is evaluated on the reloaded dumps only",
